@@ -2009,6 +2009,10 @@ def _pnorm_diagweight(x, p, w):
     # This is faster than first applying the weights and then summing with
     # BLAS dot or nrm2
     xp = np.abs(x.data.ravel(order))
+    if not is_floating_dtype(xp.dtype):
+        # Integer data: powers and weighted values are floating point,
+        # so they cannot be stored in-place
+        xp = xp.astype(float)
     if p == float('inf'):
         xp *= w.ravel(order)
         return np.max(xp)
